@@ -55,8 +55,32 @@ def is_res(v, variant=None):
     return isinstance(v, Adt) and v.path == RESULT and (variant is None or v.variant == variant)
 
 
+_CUR_MACHINE = [None]
+
+
+def drain_user_iter(m, it):
+    """eagerly drain a crate-local iterator value by calling its `next`"""
+    for imp in m.facts.impls_of(trait="std::iter::Iterator", self_adt=it.path):
+        for item in imp["items"]:
+            if item["name"] == "next" and item["path"] in m.facts.bodies:
+                out = []
+                for _ in range(100000):
+                    r = m.call_path(item["path"], [it])
+                    if is_sym(r):
+                        raise Unsupported("symbolic result from user iterator")
+                    if r.variant == "None":
+                        return out
+                    out.append(r.fields["0"])
+                raise Unsupported("user iterator did not terminate")
+    return None
+
+
 def items_of(v):
     v = deref(v)
+    if isinstance(v, Adt) and _CUR_MACHINE[0] is not None and v.path in _CUR_MACHINE[0].facts.adts:
+        r = drain_user_iter(_CUR_MACHINE[0], v)
+        if r is not None:
+            return r
     if isinstance(v, PyVec):
         return v.items
     if isinstance(v, PyIter):
@@ -331,20 +355,43 @@ def _from(m, a, c):
 
 # ---- comparison ------------------------------------------------------------
 
-def _cmp_vals(x, y):
+def _cmp_vals(x, y, m=None):
     x, y = deref(x), deref(y)
     if isinstance(x, Term) or isinstance(y, Term):
+        if x == y:
+            return Adt(ORDERING, "Equal")
         return Term("cmp", x, y)
     if isinstance(x, bool):
         x, y = int(x), int(y)
     if isinstance(x, (int, str)):
         return Adt(ORDERING, "Less" if x < y else ("Greater" if x > y else "Equal"))
-    if isinstance(x, tuple):
-        for p, q in zip(x, y):
-            r = _cmp_vals(p, q)
+    if isinstance(x, (tuple, PyVec)):
+        xs = x.items if isinstance(x, PyVec) else x
+        ys = y.items if isinstance(y, PyVec) else y
+        for p, q in zip(xs, ys):
+            r = _cmp_vals(p, q, m)
             if isinstance(r, Term) or r.variant != "Equal":
                 return r
+        if isinstance(x, PyVec) and len(xs) != len(ys):
+            return Adt(ORDERING, "Less" if len(xs) < len(ys) else "Greater")
         return Adt(ORDERING, "Equal")
+    if isinstance(x, Adt) and x.path == OPTION:
+        kx = 0 if x.variant == "None" else 1
+        ky = 0 if y.variant == "None" else 1
+        if kx != ky:
+            return Adt(ORDERING, "Less" if kx < ky else "Greater")
+        return Adt(ORDERING, "Equal") if kx == 0 else _cmp_vals(x.fields["0"], y.fields["0"], m)
+    m = m or _CUR_MACHINE[0]
+    if isinstance(x, Adt) and m is not None and x.path in m.facts.adts:
+        for imp in m.facts.impls_of(trait="std::cmp::Ord", self_adt=x.path):
+            for it in imp["items"]:
+                if it["name"] == "cmp" and it["path"] in m.facts.bodies:
+                    return m.call_path(it["path"], [x, y])
+        raise Unsupported("no Ord impl found for %s" % x.path)
+    if isinstance(x, Adt):
+        # foreign opaque value: order by structural repr (any fixed total order)
+        rx, ry = repr(x), repr(y)
+        return Adt(ORDERING, "Less" if rx < ry else ("Greater" if rx > ry else "Equal"))
     raise Unsupported("cmp of %r and %r" % (x, y))
 
 
@@ -352,6 +399,8 @@ def _cmp_vals(x, y):
 def _eq(m, a, c):
     x, y = deref(a[0]), deref(a[1])
     if isinstance(x, Term) or isinstance(y, Term):
+        if x == y:
+            return True
         return Term("eq", x, y)
     if isinstance(x, Adt) and x.path in m.facts.adts:
         if c.get("resolved") in m.facts.bodies:
@@ -368,6 +417,8 @@ def _eq(m, a, c):
 def _ne(m, a, c):
     x, y = deref(a[0]), deref(a[1])
     if isinstance(x, Term) or isinstance(y, Term):
+        if x == y:
+            return False
         return Term("ne", x, y)
     if isinstance(x, Adt) and x.path in m.facts.adts:
         for imp in m.facts.impls_of(trait="std::cmp::PartialEq", self_adt=x.path):
@@ -425,6 +476,16 @@ TRAIT_TABLE[("std::cmp::PartialOrd", "lt")] = _rel("lt", lambda x, y: x < y)
 TRAIT_TABLE[("std::cmp::PartialOrd", "le")] = _rel("le", lambda x, y: x <= y)
 TRAIT_TABLE[("std::cmp::PartialOrd", "gt")] = _rel("gt", lambda x, y: x > y)
 TRAIT_TABLE[("std::cmp::PartialOrd", "ge")] = _rel("ge", lambda x, y: x >= y)
+
+
+@reg("std::sync::Arc::<T, A>::try_unwrap")
+def _arc_try_unwrap(m, a, c):
+    return ok(deref(a[0]))
+
+
+@reg("std::sync::Arc::<T, A>::unwrap_or_clone", "std::sync::Arc::<T, A>::into_inner")
+def _arc_unwrap_or_clone(m, a, c):
+    return deref(a[0])
 
 
 @reg("std::cmp::max")
@@ -1022,3 +1083,154 @@ def _replace(m, a, c):
         x.path, x.variant, x.fields = new.path, new.variant, new.fields
         return old
     raise Unsupported("mem::replace of %r" % (x,))
+
+
+# ---- crate-specific: generic tree iterators of iter/tree.rs (modelled, see DESIGN.md trusted base) ----
+
+def _treelike_impl(m, node):
+    node = deref(node)
+    if not isinstance(node, Adt):
+        raise Unsupported("tree iteration over %r" % (node,))
+    for imp in m.facts.impls:
+        if imp["trait"] == "iter::tree::TreeLike" and imp["self_adt"] == node.path:
+            return {it["name"]: it["path"] for it in imp["items"]}
+    raise Unsupported("no TreeLike impl for %s" % node.path)
+
+
+def tree_children(m, node, impl=None):
+    impl = impl or _treelike_impl(m, node)
+    t = m.call_path(impl["as_node"], [node])
+    if is_sym(t):
+        raise Unsupported("symbolic tree node")
+    v = t.variant
+    if v == "Nullary":
+        return []
+    if v in ("Unary", "Binary", "Ternary"):
+        return [t.fields[str(i)] for i in range({"Unary": 1, "Binary": 2, "Ternary": 3}[v])]
+    ch = t.fields["0"]
+    n = m.call_path(impl["nary_len"], [ch])
+    if is_sym(n):
+        raise Unsupported("symbolic n-ary length")
+    return [m.call_path(impl["nary_index"], [dcopy(ch), i]) for i in range(n)]
+
+
+@reg("iter::tree::TreeLike::pre_order_iter")
+def _pre_order_iter(m, a, c):
+    root = deref(a[0])
+    if is_sym(root):
+        return Term("pre_order_iter", root)
+    impl = _treelike_impl(m, root)
+    out, stack = [], [root]
+    while stack:
+        top = stack.pop()
+        out.append(top)
+        stack.extend(reversed(tree_children(m, top, impl)))
+        if len(out) > 10000:
+            raise Unsupported("tree too large")
+    return PyIter(out)
+
+
+def _post_order(m, root, rtl=False):
+    impl = _treelike_impl(m, root)
+    items = []
+
+    def go(node):
+        ch = tree_children(m, node, impl)
+        if rtl:
+            ch = list(reversed(ch))
+        idx = [go(x) for x in ch]
+        items.append(Adt("iter::tree::PostOrderIterItem", "PostOrderIterItem",
+                         {"node": node, "index": len(items), "child_indices": PyVec(idx)}))
+        return len(items) - 1
+    go(root)
+    return items
+
+
+@reg("iter::tree::TreeLike::post_order_iter")
+def _post_order_iter(m, a, c):
+    root = deref(a[0])
+    if is_sym(root):
+        return Term("post_order_iter", root)
+    return PyIter(_post_order(m, root))
+
+
+@reg("iter::tree::TreeLike::rtl_post_order_iter")
+def _rtl_post_order_iter(m, a, c):
+    root = deref(a[0])
+    if is_sym(root):
+        return Term("rtl_post_order_iter", root)
+    return PyIter(_post_order(m, root, rtl=True))
+
+
+# ---- hashing into a recording hasher (a PyVec) -------------------------------------------------
+
+def hash_into(m, x, hasher):
+    x = deref(x)
+    h = deref(hasher)
+    if not isinstance(h, PyVec):
+        raise Unsupported("hasher %r" % (h,))
+    if isinstance(x, Adt) and x.path in m.facts.adts:
+        for imp in m.facts.impls_of(trait="std::hash::Hash", self_adt=x.path):
+            for it in imp["items"]:
+                if it["name"] == "hash" and it["path"] in m.facts.bodies:
+                    m.call_path(it["path"], [x, h])
+                    return
+        raise Unsupported("no Hash impl for %s" % x.path)
+    if isinstance(x, PyVec):
+        h.items.append(("len", len(x.items)))
+        for e in x.items:
+            hash_into(m, e, h)
+        return
+    if isinstance(x, tuple):
+        for e in x:
+            hash_into(m, e, h)
+        return
+    if isinstance(x, Adt) and x.path == OPTION:
+        h.items.append(("discr", 0 if x.variant == "None" else 1))
+        if x.variant == "Some":
+            hash_into(m, x.fields["0"], h)
+        return
+    from .interp import freeze
+    h.items.append(("h", freeze(x) if not isinstance(x, Adt) else repr(x)))
+
+
+@treg("std::hash::Hash", "hash")
+def _hash(m, a, c):
+    x = deref(a[0])
+    if isinstance(x, Adt) and x.path in m.facts.adts and c.get("resolved") in m.facts.bodies:
+        return NOT_HANDLED
+    hash_into(m, x, a[1])
+    return ()
+
+
+@reg("std::mem::discriminant")
+def _mem_discriminant(m, a, c):
+    v = deref(a[0])
+    if is_sym(v):
+        return Term("discriminant", v)
+    return ("discriminant", v.path, v.variant)
+
+
+@reg("bitcoin::absolute::LockTime::to_consensus_u32", "bitcoin::Sequence::to_consensus_u32")
+def _to_consensus(m, a, c):
+    v = deref(a[0])
+    if isinstance(v, Adt) and "0" in v.fields and isinstance(v.fields["0"], int):
+        return v.fields["0"]
+    return Term("to_consensus_u32", v)
+
+
+@reg("iter::tree::TreeLike::n_children")
+def _n_children(m, a, c):
+    node = deref(a[0])
+    if is_sym(node):
+        return Term("n_children", node)
+    return len(tree_children(m, node))
+
+
+@reg("iter::tree::TreeLike::nth_child")
+def _nth_child(m, a, c):
+    node = deref(a[0])
+    if is_sym(node) or is_sym(a[1]):
+        return Term("nth_child", node, a[1])
+    ch = tree_children(m, node)
+    return some(ch[a[1]]) if 0 <= a[1] < len(ch) else NONE
